@@ -15,7 +15,9 @@ CLAIMED = {
             "Every (query shape, number of solutions n, constraint) triple within the bounds is executed on the real "
             "engine one next() at a time and compared with a reference automaton after every step; the space is "
             "finite and visited completely, so within the bounds no off-by-one in Exactly/AtLeast/AtMost/Range/the "
-            "can survive.",
+            "can survive. The same quantified query object is also evaluated again after j steps of a first evaluation that is "
+            "closed, dropped or left open (every j): the second evaluation must follow the automaton from its initial state "
+            "and an open first evaluation must continue as if alone.",
             "Bounds n<=6,k<=7 (quick) / n<=9,k<=10 (thorough); CPython 3.12; assumes behaviour for larger counts "
             "follows the same comparisons (the code has no other constants).",
             "DESIGN.md section 3 C09"),
